@@ -68,8 +68,10 @@ Content(cls) ==
     [] cls = "cmp_s_zero" -> BuildCompact(5, 0)                            \* the first half is fine, the second is not
     [] cls = "cmp_s_ge_n" -> I2OSP(5, W) \o I2OSP(N, W)
     [] cls = "cmp_r_ge_n" -> I2OSP(N, W) \o I2OSP(7, W)
+    [] cls = "sig_qinf"   -> LET R == PDbl(GenPt) IN                       \* s R = e G for the digest n - 1: recovery would give the point at infinity
+                             BuildCompactRec(R[1] % N, SNeg(SInv(2)), (R[2] % 2) + (IF R[1] >= N THEN 2 ELSE 0))
 BufClasses == {"inf", "cmp", "unc", "cmp_G", "noncanon", "offcurve", "nearcurve", "coords_near", "nonresidue", "hybrid", "badlen", "empty",
-               "sc_small", "sc_zero", "sc_nm1", "sc_n", "sc_max", "coords", "coords_bad", "xonly", "xonly_bad", "sig_junk", "der_junk", "u_exc", "spki_unc", "spki_cmp", "spki_inf", "spki_bits", "btc_junk", "cmp_junk", "cmp_s_zero", "cmp_s_ge_n", "cmp_r_ge_n"}
+               "sc_small", "sc_zero", "sc_nm1", "sc_n", "sc_max", "coords", "coords_bad", "xonly", "xonly_bad", "sig_junk", "der_junk", "u_exc", "spki_unc", "spki_cmp", "spki_inf", "spki_bits", "btc_junk", "cmp_junk", "cmp_s_zero", "cmp_s_ge_n", "cmp_r_ge_n", "sig_qinf"}
 
 (* every call of the API over the pool: one record per (operation, slot assignment, control bit, byte class) *)
 Calls ==
@@ -122,6 +124,15 @@ Calls ==
   \cup {[op |-> "key.EqualForeign", c |-> c] : c \in {0, 1, 2, 3}}
   \cup {[op |-> "btc.PreHash", m |-> m, b |-> b, c |-> c] : m \in BS, b \in BS, c \in {0, 1, 2}}
   \cup {[op |-> o, w |-> w] : o \in {"key.Generate", "skey.Generate"}, w \in 1..WKey}
+  \cup {[op |-> o, s |-> s, p |-> p] : o \in {"sc.Set", "sc.NewFrom"}, s \in SS, p \in SS}
+  \cup {[op |-> o, s |-> s] : o \in {"sc.One", "sc.Zero"}, s \in SS}
+  \cup {[op |-> "sc.NewFromUint64", s |-> s, c |-> c] : s \in SS, c \in {0, 1, 2}}
+  \cup {[op |-> o, s |-> s, b |-> b, w |-> w] : o \in {"sc.NewFromBytes", "sc.NewFromCanonicalBytes"}, s \in SS, b \in BS, w \in 1..WDecode}
+  \cup {[op |-> "pt.SplitUncompressed", b |-> b, m |-> m] : b \in BS, m \in BS}
+  \cup {[op |-> o, m |-> m, s |-> s, t |-> t, w |-> w] : o \in {"key.SignRaw", "key.VerifyRaw"}, m \in BS, s \in SS, t \in SS, w \in 1..WSig}
+  \cup {[op |-> "key.SignHedged", m |-> m, b |-> b, c |-> c, w |-> w] : m \in BS, b \in BS, c \in {0, 1}, w \in 1..WSig}
+  \cup {[op |-> o, v |-> 0, b |-> b, m |-> m] : o \in {"h2c.RO", "h2c.NU"}, b \in BS, m \in BS}          \* a constructor: which slot takes the fresh point is immaterial
+  \cup {[op |-> "btc.IsBip66", b |-> b, w |-> w] : b \in BS, w \in 1..WSig}
   \cup {[op |-> "env.LoadBuf", b |-> b, cls |-> c, content |-> Content(c), w |-> w] : b \in BS, c \in BufClasses, w \in 1..WLoad}
   \cup {[op |-> "env.MutateBuf", b |-> b, cls |-> "flip", w |-> w] : b \in BS, w \in 1..WEnv}
   \cup {[op |-> "env.MutateScalar", s |-> s, w |-> w] : s \in SS, w \in 1..WEnv}
@@ -191,6 +202,21 @@ Preludes ==
          [op |-> "skey.Sign", m |-> 1, b |-> 0],
          [op |-> "env.LoadBuf", b |-> 2, cls |-> "cmp", content |-> Content("cmp")], [op |-> "skey.Sign", m |-> 2, b |-> 2],
          [op |-> "spub.Verify", m |-> 1, b |-> 0] >> })
+  \cup (IF NS < 2 THEN {} ELSE
+    (* round 8: raw signing and verification through scalar objects, a hedged signature (any valid one), a failing entropy source, the *)
+    (* caller scribbling over the scalars it was handed, hash-to-curve results as operands                                             *)
+    { << [op |-> "env.LoadBuf", b |-> 1, cls |-> "sc_small", content |-> Content("sc_small")], [op |-> "key.NewPrivate", b |-> 1],
+         [op |-> "key.SignRaw", m |-> 1, s |-> 0, t |-> 1], [op |-> "key.VerifyRaw", m |-> 1, s |-> 0, t |-> 1],
+         [op |-> "sig.BuildCompact", b |-> 0, s |-> 0, t |-> 1], [op |-> "key.Verify", m |-> 1, b |-> 0, c |-> 1],
+         [op |-> "key.SignHedged", m |-> 1, b |-> 0, c |-> 0], [op |-> "key.Verify", m |-> 1, b |-> 0, c |-> 1],
+         [op |-> "key.SignHedged", m |-> 1, b |-> 0, c |-> 1], [op |-> "key.Verify", m |-> 1, b |-> 0, c |-> 1],
+         [op |-> "env.MutateScalar", s |-> 0], [op |-> "key.VerifyRaw", m |-> 1, s |-> 0, t |-> 1],
+         [op |-> "h2c.RO", v |-> 0, b |-> 1, m |-> 0], [op |-> "h2c.NU", v |-> 1, b |-> 1, m |-> 1], [op |-> "pt.Add", v |-> 0, p |-> 0, q |-> 1],
+         [op |-> "sig.BuildDER", b |-> 0, s |-> 0, t |-> 1], [op |-> "env.AppendByte", b |-> 0], [op |-> "btc.IsBip66", b |-> 0] >>,
+      << [op |-> "sc.NewFromUint64", s |-> 0, c |-> 2], [op |-> "sc.NewFrom", s |-> 1, p |-> 0], [op |-> "env.MutateScalar", s |-> 0], [op |-> "sc.Equal", p |-> 0, q |-> 1],
+         [op |-> "sc.One", s |-> 0], [op |-> "sc.Set", s |-> 1, p |-> 0], [op |-> "sc.Zero", s |-> 0], [op |-> "sc.Equal", p |-> 0, q |-> 1],
+         [op |-> "pt.NewGenerator", v |-> 0], [op |-> "pt.UncompressedBytes", p |-> 0, b |-> 0], [op |-> "pt.SplitUncompressed", b |-> 0, m |-> 1],
+         [op |-> "env.MutateBuf", b |-> 1, cls |-> "flip"], [op |-> "pt.SetUncompressedBytes", v |-> 1, b |-> 0] >> })
 RECURSIVE RunPrelude(_, _, _)
 RunPrelude(st, hist, pre) ==
   IF Len(pre) = 0 THEN <<st, hist>>
@@ -206,23 +232,32 @@ CtxValid ==
      [op |-> "env.LoadBuf", b |-> 1, cls |-> "sc_nm1", content |-> Content("sc_nm1")], [op |-> "sc.SetCanonicalBytes", s |-> 1, b |-> 1],
      [op |-> "key.NewPrivate", b |-> 1], [op |-> "skey.FromECDSA"],
      [op |-> "key.Sign", m |-> 1, b |-> 0, c |-> 2] >>                      \* buffer 0 holds a signature handed out earlier
-SigOps == {"key.Sign", "key.Verify", "key.Recover", "skey.Sign", "spub.Verify", "btc.Verify", "key.ParseASN1"}
+SigOps == {"key.Sign", "key.Verify", "key.Recover", "skey.Sign", "spub.Verify", "btc.Verify", "key.ParseASN1", "key.SignRaw", "key.VerifyRaw", "key.SignHedged", "btc.IsBip66",
+           "h2c.RO", "h2c.NU", "pt.SplitUncompressed", "sc.NewFromBytes", "sc.NewFromCanonicalBytes"}
+DigestOps == {"key.SignRaw", "key.VerifyRaw", "key.SignHedged"}
+H2cOps    == {"h2c.RO", "h2c.NU"}
+(* the byte classes offered to a call in the systematic schedules: everything, except that the digest / tag readers of round 8 get the classes their outcome depends on *)
+SysClasses(ev) == IF ev.op \in DigestOps THEN {"sc_small", "sc_zero", "sc_n", "sc_max", "empty", "cmp", "unc"}
+                  ELSE IF ev.op \in H2cOps THEN {"empty", "sc_small", "unc", "spki_unc"}
+                  ELSE BufClasses
 ReadsBuf(ev) == ev.op \in DecodeOps \cup {"sig.ParseCompact", "sig.ParseCompactRec", "sig.ParseDER", "pt.NewFromBytes", "pt.FromCoords", "pt.SetUniform", "sc.SetBytes", "sc.SetCanonicalBytes", "key.NewPrivate", "key.NewPublic", "skey.New", "spub.New",
                                      "key.PubEqual", "key.PrivEqual", "spub.Equal", "skey.Equal"} \cup SigOps
-ReadSlot(ev) == IF ev.op \in {"key.Sign", "skey.Sign"} THEN ev.m ELSE ev.b           \* the buffer whose CLASS decides the outcome
-SysCalls == {ev \in AllCalls : ~IsEnv(ev) /\ (NP < 3 \/ NS < 2 \/ NB < 2 \/ TRUE)}
+ReadSlot(ev) == IF ev.op \in {"key.Sign", "skey.Sign"} \cup DigestOps THEN ev.m ELSE ev.b           \* the buffer whose CLASS decides the outcome
+SysCalls == {ev \in AllCalls : ~IsEnv(ev)}
 (* ... and after the call the CALLER scribbles over everything the call was given or handed out: the buffers it read or wrote, *)
 (* the point / scalar a key accessor returned or a key constructor was built from (whole pool is compared after every step)    *)
 Aftermath(ev) ==
      (IF "b" \in DOMAIN ev THEN << [op |-> "env.MutateBuf", b |-> ev.b, cls |-> "flip"] >> ELSE <<>>)
-  \o (IF "m" \in DOMAIN ev /\ ev.m # ev.b THEN << [op |-> "env.MutateBuf", b |-> ev.m, cls |-> "flip"] >> ELSE <<>>)
+  \o (IF "m" \in DOMAIN ev /\ ("b" \notin DOMAIN ev \/ ev.m # ev.b) THEN << [op |-> "env.MutateBuf", b |-> ev.m, cls |-> "flip"] >> ELSE <<>>)
   \o (IF ev.op \in {"key.PubPoint", "spub.Point"} THEN << [op |-> "env.MutatePoint", p |-> ev.v] >> ELSE <<>>)
   \o (IF ev.op \in {"key.NewPublicFromPoint", "spub.FromPoint"} THEN << [op |-> "env.MutatePoint", p |-> ev.p] >> ELSE <<>>)
-  \o (IF ev.op \in {"key.PrivScalar", "skey.Scalar", "key.NewPrivateFromScalar"} THEN << [op |-> "env.MutateScalar", s |-> ev.s] >> ELSE <<>>)
+  \o (IF ev.op \in {"key.PrivScalar", "skey.Scalar", "key.NewPrivateFromScalar", "key.SignRaw", "sc.NewFrom"} THEN << [op |-> "env.MutateScalar", s |-> ev.s] >> ELSE <<>>)
 SysSchedules ==
   {ctx \o <<ev>> \o Aftermath(ev) : ctx \in {<<>>, CtxValid}, ev \in {e \in SysCalls : ~ReadsBuf(e)}}
-  \cup {ctx \o << [op |-> "env.LoadBuf", b |-> ReadSlot(ev), cls |-> c, content |-> Content(c)], ev >> \o Aftermath(ev) :
-          ctx \in {<<>>, CtxValid}, ev \in {e \in SysCalls : ReadsBuf(e)}, c \in BufClasses}
+  \cup {ctx \o << [op |-> "env.LoadBuf", b |-> ReadSlot(ec[1]), cls |-> ec[2], content |-> Content(ec[2])], ec[1] >> \o Aftermath(ec[1]) :
+          ctx \in {<<>>, CtxValid}, ec \in {x \in {e \in SysCalls : ReadsBuf(e)} \X BufClasses : x[2] \in SysClasses(x[1])}}
+  (* NB: no UNION here - TLC evaluates constant-level definitions when it loads the specification, and a UNION of thousands of sets of  *)
+  (* tuples is enumerated eagerly with a quadratic membership search (2.5 minutes of start-up for every TLC process, measured)        *)
 
 (* ---- non-vacuity: deliberately wrong designs that the invariants must reject (bin/check runs the *_bug*.cfg configurations and *)
 (* demands the violation): a failed decode that clears its receiver; caller mutation of an import buffer that moves the key       *)
@@ -245,7 +280,10 @@ Emit == IF "VERIF_SKEL_DIR" \in DOMAIN IOEnv
 
 (* In simulation (schedule generation) one call is DRAWN per step instead of enumerating every successor and keeping one: the   *)
 (* behaviours are the same set, generation is ~1000x cheaper.  Exhaustive configurations quantify over the whole call set.      *)
-Pick == IF RandomPick THEN {RandomElement(AllCalls)} ELSE AllCalls
+(* NB: the drawn call must be a STATE-level expression (it mentions mDepth): TLC evaluates constant-level expressions once and caches   *)
+(* them, and a cached draw repeats one call for the whole run (found in session 5: every simulated history was its prelude followed  *)
+(* by forty copies of a single call).                                                                                                 *)
+Pick == IF RandomPick THEN {RandomElement(IF mDepth >= 0 THEN AllCalls ELSE {})} ELSE AllCalls
 Next ==
   \/ /\ mDepth < MaxDepth
      /\ \E ev \in Pick :
